@@ -34,7 +34,6 @@ def load_corpus(prop):
 # ====================================================================== C10: variadic collections
 
 KINDS = {"set": "KSet", "counted": "KCounted", "column": "KColumn"}
-VC_KEY = "VariadicCountedHashSet/extend/reserve-rehash-on-nonempty"
 
 
 def vc_op_term(op):
@@ -157,23 +156,8 @@ def vc_triggers(case):
 
 
 def vc_finding_key(case, res):
-    """Known-finding class: counted set, and the first wrong answer comes after an `extend`
-    (non-empty batch) onto a non-empty counted set, on a register that answer looks at."""
-    if case.get("k") != "vc" or case.get("kind") != "counted" or "ans" not in res:
-        return None
-    exp = vc_oracle(case)
-    first = None
-    for i, (a, e) in enumerate(zip(res["ans"], exp)):
-        if a != e:
-            first = i
-            break
-    if first is None:
-        return None
-    op = case["ops"][first]
-    regs = [op[1]] + ([1 - op[1]] if op[0] == "eq" else [])
-    trig = vc_triggers(case)
-    if any(t < first for w in regs for t in trig[w]):
-        return VC_KEY
+    """No open finding for C10 (the counted set's extend/reserve defect was fixed in /repo by
+    38aff06f64c): every property failure is reported."""
     return None
 
 
@@ -195,8 +179,8 @@ def gen_vc_case(rng, tier):
     arity = rng.range(2, 4)
     dom = rng.choice([2, 3, 4, 4, 4, 6, 40])
     nops = rng.range(1, 60) if rng.chance(3, 4) else rng.range(1, 12)
-    # a third of the counted histories never extend a non-empty collection, so that any
-    # other defect of the counted set is not hidden behind the known one
+    # a third of the counted histories never extend a non-empty collection (kept from the time
+    # the extend/reserve defect was open, so that other defects were not hidden behind it)
     ext_nonempty_ok = not (kind == "counted" and rng.chance(1, 3))
     big_left = 2 if tier == "quick" else 4
     regs = [[], []]
@@ -352,7 +336,6 @@ GHT_SHAPES = {  # mirror of harness/h_coll/src/ght.rs::shapes(); checked against
     "k3v1": {"nk": 3, "arity": 4, "nko": 4},
     "k0v2": {"nk": 0, "arity": 2, "nko": 2},
 }
-GHT_KEY = "GhtInner/partial_cmp/incomparable-reaches-unreachable"
 
 
 def ght_op_term(op, shape=None):
@@ -448,21 +431,9 @@ def ght_oracle(case):
 
 
 def ght_finding_key(case, res):
-    """Known class: every wrong answer is a partial_cmp of two incomparable tries that panicked
-    (unreachable!()) instead of returning None; any other wrong answer is not this finding."""
-    if case.get("k") != "ght" or "ans" not in res:
-        return None
-    exp = ght_oracle(case)
-    seen = False
-    for op, a, e in zip(case["ops"], res["ans"], exp):
-        if a == e:
-            continue
-        if op[0] == "cmp" and isinstance(a, dict) and "panic" in a and "unreachable" in a["panic"] \
-                and e == {"cmp": "None"}:
-            seen = True
-            continue
-        return None
-    return GHT_KEY if seen else None
+    """No open finding for C08 (the partial_cmp panic was fixed in /repo by 40ab16e7935):
+    every property failure is reported."""
+    return None
 
 
 def gen_ght_case(rng, tier):
